@@ -40,6 +40,12 @@ def _side_leaf(DF, vals):
                 return CS
         if t[0] == "getitem" and len(t) == 3 and T.is_const(t[2]) and t[2][1] in ("Event Sync", "Context Sync"):
             return ES if t[2][1] == "Event Sync" else CS
+        if t[0] == "in" and t[1] == T.col(DF, "name"):
+            # the ids of the symbols selected by a predicate over the symbol strings: decided on representatives of the row's name class (near misses stand for 'any other name')
+            from ..specs.symset import class_in_symbol_set, NEAR_MISSES
+            r = class_in_symbol_set(t[2], {ES: ["Event Sync"], CS: ["Context Sync"]}.get(vals["name"], NEAR_MISSES))
+            if r is not None:
+                return r
         raise T.Unknown(t)
     return leaf
 
